@@ -18,11 +18,13 @@ def loop_asset_weight(lp):
     el = ('elem', lp.iter, lp.id)
     if src[0] == 'call' and src[1] == ('meth', 'items') and len(src[2]) == 1:
         return ('sub', el, num(0)), ('sub', el, num(1)), src[2][0]
+    from ..symex import reduce_subscript
     if src[0] == 'call' and src[1] == ('meth', 'keys') and len(src[2]) == 1:
-        return el, ('sub', src[2][0], el), src[2][0]
+        return el, reduce_subscript(src[2][0], el), src[2][0]
     if src[0] == 'call' and src[1] in (('ext', 'LIST'),) and len(src[2]) == 1:
-        return el, ('sub', src[2][0], el), src[2][0]
-    return el, ('sub', src, el), src
+        return el, reduce_subscript(src[2][0], el), src[2][0]
+    from ..symex import reduce_subscript
+    return el, reduce_subscript(src, el), src
 
 
 def is_empty_weights_path(p):
